@@ -613,6 +613,15 @@ func checkC11(P *Prog, r *Result) {
 	r.floor("C11/param-key-is-code", 15)
 	// (c) issue-complete
 	P.checkIssueComplete(r)
+	// issues are per execution: no package-level issue object can be handed to an execution (it would keep the
+	// first execution's message/type and ignore the later execution's language and formatter)
+	tmp := NewResult(r.Prop, r.Tier)
+	P.checkNoGlobalPooledObject(tmp)
+	for _, o := range tmp.Obls {
+		o.Rule = "C11/issue-per-execution"
+		r.Obls = append(r.Obls, o)
+		r.Instances[o.Rule]++
+	}
 	// (d) precedence
 	P.checkPrecedence(r)
 	_ = R
